@@ -4,6 +4,7 @@ import (
 	"bytes"
 	"crypto"
 	"fmt"
+	"io"
 	"math/rand"
 
 	"github.com/oasisprotocol/ed25519"
@@ -193,7 +194,7 @@ func observe(rec *ev.Rec, oc *obsCall) bool {
 			sigs[i] = arg(nk + nm + i)
 		}
 		pn = safe(func() {
-			ok, valid, err := ed25519.VerifyBatch(rand.New(rand.NewSource(oc.ESeed)), keys, msgs, sigs, opts)
+			ok, valid, err := ed25519.VerifyBatch(entropyFor(oc.ESeed), keys, msgs, sigs, opts)
 			mism := nk != nm || nm != ns
 			if (mism || ctxLong) != (err != nil) {
 				bad = fmt.Sprintf("VerifyBatch err=%v with counts (%d,%d,%d), context length %d", err, nk, nm, ns, len(oc.Ctx))
@@ -449,4 +450,29 @@ func fixShape(rng *rand.Rand, oc *obsCall) {
 		oc.Args = append(oc.Args, gen.RandBytes(rng, 32))
 	}
 	oc.Args = oc.Args[:total]
+}
+
+// constReader is a legal, never-failing entropy source that returns one byte
+// value for ever (all-zero randomisers are the hostile case).
+type constReader byte
+
+func (c constReader) Read(p []byte) (int, error) {
+	for i := range p {
+		p[i] = byte(c)
+	}
+	return len(p), nil
+}
+
+// entropyFor derives the entropy source of a recorded VerifyBatch call from
+// its seed: one call in eight gets all-zero bytes, one in eight all-ones, the
+// others a PRNG stream.  Results are not judged here (C06 does that), only
+// panics, errors and the shape of the result.
+func entropyFor(seed int64) io.Reader {
+	switch uint64(seed) % 8 {
+	case 0:
+		return constReader(0)
+	case 1:
+		return constReader(0xff)
+	}
+	return rand.New(rand.NewSource(seed))
 }
